@@ -224,3 +224,194 @@ for _t, _name in CLASSES.items():
                       replay='c02_roundtrip', assumptions=ASSUME)(_decode(_t, _m, _d))
         both_backends('c02.partial.%s[%s]' % (_name, _sh), ['C02'], functions=CODEC_FUNCS, replay='c02_roundtrip',
                       assumptions=ASSUME)(_partial(_t, _m, _d))
+
+
+# --------------------------------------------------------------------------- (e) helper pairs: one contract, both back ends
+
+FH = 'rsocket/frame_helpers.py::'
+
+
+@both_backends('c02.helpers.pack_unpack', ['C02', 'C18'],
+               functions=[FH + 'pack_24bit', FH + 'unpack_24bit', FH + 'pack_position', FH + 'unpack_position',
+                          FH + 'parse_type', FH + 'unpack_32bit', FH + 'pack_string', FH + 'unpack_string',
+                          FH + 'is_flag_set', FH + 'pack_24bit_length'], assumptions=ASSUME)
+def helper_pairs(E):
+    n = E.input('n24', E.fresh_int('n24', 0, (1 << 24) - 1))
+    out = E.call(E.lookup(FH + 'pack_24bit'), [n])
+    E.cover('helpers')
+    E.prove('pack_24bit=be3', M.b_eq_goal(E, out, W.be(n, 3), 'p24'))
+    pre = E.fresh_bytes('pre', 0, 64)
+    post = E.fresh_bytes('post', 0, 64)
+    buf = W.cat(pre, W.be(n, 3), post)
+    got = E.call(E.lookup(FH + 'unpack_24bit'), [buf, mk_int(pre.len_term())])
+    E.prove('unpack_24bit_inverse_at_any_offset', I(got) == I(n))
+    md = E.fresh_bytes('item', 0, (1 << 24) - 1)
+    E.prove('pack_24bit_length=be3(len)', M.b_eq_goal(E, E.call(E.lookup(FH + 'pack_24bit_length'), [md]),
+                                                       W.be(mk_int(md.len_term()), 3), 'p24l'))
+    p = E.input('pos', E.fresh_int('pos', 0, (1 << 63) - 1))
+    outp = E.call(E.lookup(FH + 'pack_position'), [p])
+    E.prove('pack_position=be8', M.b_eq_goal(E, outp, W.be(p, 8), 'pp'))
+    gotp = E.call(E.lookup(FH + 'unpack_position'), [W.be(p, 8)])
+    E.prove('unpack_position_inverse', I(gotp) == I(p))
+    # reserved top bit is ignored on decode
+    hi = E.fresh_int('hi', 0, 1)
+    raw = mk_int(I(hi) * (1 << 63) + I(p))
+    from pyvc import bitform as BF
+    gotp2 = E.call(E.lookup(FH + 'unpack_position'), [M.be_bytes(I(raw), 8)])
+    E.prove('unpack_position_masks_63_bits', I(gotp2) == I(p))
+    b0 = E.fresh_bytes('tbuf', 1, 64)
+    known, val = E.call(E.lookup(FH + 'parse_type'), [b0])
+    first = b0.at(z3.IntVal(0))
+    E.prove('parse_type:flag_is_top_bit', B(E.truth(known)) == (first >= 128))
+    E.prove('parse_type:value_is_low_7_bits', I(val) == first % 128)
+    u = E.input('u32', E.fresh_int('u32', 0, (1 << 32) - 1))
+    got32 = E.call(E.lookup(FH + 'unpack_32bit'), [W.cat(pre, W.be(u, 4), post), mk_int(pre.len_term())])
+    E.prove('unpack_32bit', I(got32) == I(u))
+    s = E.fresh_bytes('s', 0, 127)
+    ps = E.call(E.lookup(FH + 'pack_string'), [s])
+    E.prove('pack_string=len_byte+bytes', M.b_eq_goal(E, ps, W.cat(W.be(mk_int(s.len_term()), 1), s), 'ps'))
+    ln, back = E.call(E.lookup(FH + 'unpack_string'), [W.cat(pre, ps, post), mk_int(pre.len_term())])
+    E.prove('unpack_string:length', I(ln) == s.len_term())
+    E.prove('unpack_string:bytes', M.b_eq_goal(E, back, s, 'us'))
+
+
+@both_backends('c02.header.parse', ['C02', 'C12'], functions=[FR + 'parse_header_native', FR + 'parse_header_cbitstruct'],
+               assumptions=ASSUME)
+def header_parse(E):
+    """Both header parsers satisfy the SAME contract on every header whose reserved bit is 0."""
+    buf = E.input('buffer', E.fresh_bytes('hdr', 6, 64))
+    E.assume(buf.at(z3.IntVal(0)) < 128)
+    hdr = new_obj(E, FR + 'Header')
+    ph = E.getattr(E.lookup(FR + 'ParseHelper'), 'parse_header')
+    b4, b5 = buf.at(z3.IntVal(4)), buf.at(z3.IntVal(5))
+    try:
+        flags = E.call(ph, [hdr, buf, 0])
+    except PyExc as e:
+        E.cover('unknown-type')
+        E.prove('header:unknown_type_raises_RSocketUnknownFrameType',
+                e.value.cls.issubclass(E.lookup('rsocket/exceptions.py::RSocketUnknownFrameType')))
+        t = b4 / 4
+        E.prove('header:raises_only_for_undefined_type_ids', z3.Or(t == 0, t > 14))
+        return
+    E.cover('parsed')
+    be4 = ((buf.at(z3.IntVal(0)) * 256 + buf.at(z3.IntVal(1))) * 256 + buf.at(z3.IntVal(2))) * 256 + buf.at(z3.IntVal(3))
+    E.prove('header:stream_id', I(E.getattr(hdr, 'stream_id')) == be4)
+    E.prove('header:frame_type', E.getattr(hdr, 'frame_type').value == z3.simplify(b4 / 4) if False else
+            z3.IntVal(E.getattr(hdr, 'frame_type').value) == b4 / 4)
+    E.prove('header:length', I(E.getattr(hdr, 'length')) == buf.len_term())
+    E.prove('header:flag_ignore', B(E.truth(E.getattr(hdr, 'flags_ignore'))) == ((b4 / 2) % 2 == 1))
+    E.prove('header:flag_metadata', B(E.truth(E.getattr(hdr, 'flags_metadata'))) == (b4 % 2 == 1))
+    E.prove('header:flag_0x80', B(E.truth(E.getattr(flags, 'flags_follows_resume_respond'))) == (b5 >= 128))
+    E.prove('header:flag_0x40', B(E.truth(E.getattr(flags, 'flags_complete_lease'))) == ((b5 / 64) % 2 == 1))
+    E.prove('header:flag_0x20', B(E.truth(E.getattr(flags, 'flags_next'))) == ((b5 / 32) % 2 == 1))
+
+
+# --------------------------------------------------------------------------- (f) builders
+
+FB = 'rsocket/frame_builders.py::'
+
+
+def sym_payload(E):
+    shape = E.path.choice(3, 'payload-shape')
+    data = None if shape == 0 else E.input('data', E.fresh_bytes('data'))
+    md = None if shape in (0, 1) else E.input('metadata', E.fresh_bytes('metadata'))
+    return E.call(E.lookup('rsocket/payload.py::Payload'), [data, md]), data, md
+
+
+def same_or_none(E, a, b, tag):
+    if a is None or b is None:
+        return a is b
+    return M.b_eq_goal(E, a, b, tag)
+
+
+@harness('c02.builders', ['C02', 'C01', 'C06', 'C08'],
+         functions=[FB + n for n in ('to_payload_frame', 'to_request_n_frame', 'to_cancel_frame', 'to_request_channel_frame',
+                                     'to_request_stream_frame', 'to_request_response_frame', 'to_fire_and_forget_frame',
+                                     'to_metadata_push_frame', 'to_keepalive_frame')])
+def builders(E):
+    sid = E.input('stream_id', E.fresh_int('sid', 0, 0x7FFFFFFF))
+    n = E.input('n', E.fresh_int('n', 1, 0x7FFFFFFF))
+    fs = E.input('fragment_size', E.fresh_int('fs', 64, 1 << 24)) if E.path.choice(2, 'fs') else None
+    p, data, md = sym_payload(E)
+    cflag, nflag = E.fresh_bool('complete'), E.fresh_bool('is_next')
+    cls = lambda nme: E.lookup(FR + nme)  # noqa: E731
+
+    def common(fr, cname, tag, payload=True):
+        E.prove('%s:class' % tag, fr.cls is cls(cname))
+        E.prove('%s:stream_id' % tag, I(E.getattr(fr, 'stream_id')) == I(sid))
+        if payload:
+            E.prove('%s:data' % tag, same_or_none(E, E.getattr(fr, 'data'), data, tag + 'd'))
+            E.prove('%s:metadata' % tag, same_or_none(E, E.getattr(fr, 'metadata'), md, tag + 'm'))
+            fsz = E.getattr(fr, 'fragment_size_bytes')
+            E.prove('%s:fragment_size' % tag, (fsz is None) if fs is None else (I(fsz) == I(fs)))
+    E.cover('builders')
+    fr = E.call(E.lookup(FB + 'to_payload_frame'), [sid, p, cflag, nflag, fs])
+    common(fr, 'PayloadFrame', 'payload')
+    E.prove('payload:complete', B(E.getattr(fr, 'flags_complete')) == B(cflag))
+    E.prove('payload:next', B(E.getattr(fr, 'flags_next')) == B(nflag))
+    E.prove('payload:not_follows', E.getattr(fr, 'flags_follows') is False)
+    fr = E.call(E.lookup(FB + 'to_request_n_frame'), [sid, n])
+    common(fr, 'RequestNFrame', 'request_n', payload=False)
+    E.prove('request_n:n', I(E.getattr(fr, 'request_n')) == I(n))
+    fr = E.call(E.lookup(FB + 'to_cancel_frame'), [sid])
+    common(fr, 'CancelFrame', 'cancel', payload=False)
+    fr = E.call(E.lookup(FB + 'to_request_channel_frame'), [], dict(stream_id=sid, payload=p, initial_request_n=n,
+                                                                   complete=cflag, fragment_size_bytes=fs))
+    common(fr, 'RequestChannelFrame', 'channel')
+    E.prove('channel:initial_request_n', I(E.getattr(fr, 'initial_request_n')) == I(n))
+    E.prove('channel:complete', B(E.getattr(fr, 'flags_complete')) == B(cflag))
+    fr = E.call(E.lookup(FB + 'to_request_stream_frame'), [], dict(stream_id=sid, payload=p, initial_request_n=n,
+                                                                  fragment_size_bytes=fs))
+    common(fr, 'RequestStreamFrame', 'stream')
+    E.prove('stream:initial_request_n', I(E.getattr(fr, 'initial_request_n')) == I(n))
+    fr = E.call(E.lookup(FB + 'to_request_response_frame'), [sid, p, fs])
+    common(fr, 'RequestResponseFrame', 'rr')
+    fr = E.call(E.lookup(FB + 'to_fire_and_forget_frame'), [sid, p, fs])
+    common(fr, 'RequestFireAndForgetFrame', 'fnf')
+    sf = E.getattr(fr, 'sent_future')
+    E.prove('fnf:has_pending_sent_future', isinstance(sf, SObj) and sf.cls.name == 'Future' and sf.attrs['state'] == 'pending')
+    mdp = E.fresh_bytes('push')
+    fr = E.call(E.lookup(FB + 'to_metadata_push_frame'), [mdp])
+    E.prove('push:class', fr.cls is cls('MetadataPushFrame'))
+    E.prove('push:stream_0', E.getattr(fr, 'stream_id') == 0)
+    E.prove('push:metadata', M.b_eq_goal(E, E.getattr(fr, 'metadata'), mdp, 'push'))
+    E.prove('push:has_sent_future', isinstance(E.getattr(fr, 'sent_future'), SObj))
+    kd = E.fresh_bytes('kdata')
+    fr = E.call(E.lookup(FB + 'to_keepalive_frame'), [kd])
+    E.prove('keepalive:class', fr.cls is cls('KeepAliveFrame'))
+    E.prove('keepalive:stream_0', E.getattr(fr, 'stream_id') == 0)
+    E.prove('keepalive:respond', E.getattr(fr, 'flags_respond') is True)
+    E.prove('keepalive:data', M.b_eq_goal(E, E.getattr(fr, 'data'), kd, 'kd'))
+
+
+# --------------------------------------------------------------------------- TransportTCP.serialize_partial
+
+@harness('c02.tcp.serialize_partial', ['C02', 'C05', 'C11'],
+         functions=['rsocket/transports/tcp.py::TransportTCP.serialize_partial', 'rsocket/transports/tcp.py::TransportTCP.send_frame',
+                    'rsocket/helpers.py::wrap_transport_exception'] + CODEC_FUNCS,
+         assumptions=ASSUME + ['StreamWriter is abstract: write(b) appends b to the socket buffer, drain() is a suspension point; either may raise'])
+def tcp_partial(E):
+    t = W.T_PAYLOAD
+    f = make_fields(E, t, 'bytes', 'bytes')
+    fr = make_frame(E, t, f)
+    enc = W.ENC(t, f)
+    E.assume(lift_bytes(enc).len_term() < (1 << 24))
+    exp = W.with_length_prefix(enc)
+    writer = SOpaque('writer', 'writer')
+    log = OpaqueLog(E, returns={'drain': lambda *a: __import__('pyvc.aio', fromlist=['x']).Awaitable('ready')},
+                    may_raise=lambda o, m: True)
+    tr = new_obj(E, 'rsocket/transports/tcp.py::TransportTCP', _writer=writer, _reader=SOpaque('reader', 'reader'))
+    try:
+        E.await_value(E.call(E.getattr(tr, 'send_frame'), [fr]))
+    except PyExc as e:
+        E.cover('writer-failed')
+        E.prove('tcp:writer_failure_becomes_RSocketTransportError',
+                e.value.cls.issubclass(E.lookup('rsocket/exceptions.py::RSocketTransportError')))
+        return
+    E.cover('written')
+    calls = log.of(writer)
+    names = [c[1] for c in calls]
+    E.prove('tcp:drain_once_after_all_writes', names.count('drain') == 1 and names[-1] == 'drain'
+            and all(n == 'write' for n in names[:-1]))
+    total = M.b_concat_all([c[2][0] for c in calls if c[1] == 'write'])
+    E.prove('tcp:bytes_written_equal_length_prefixed_encoding', M.b_eq_goal(E, total, exp, 'tcp'))
